@@ -229,9 +229,8 @@ unsafe impl GlobalAlloc for SimAlloc {
 // --- control -----------------------------------------------------------------------------------
 
 /// Select the policy for the run that starts now. Resets the arenas if nothing is live.
-pub fn begin_run(policy: Policy, run: u64) {
+pub fn begin_run(policy: Policy) {
     SCOPE.store(false, Relaxed);
-    CURRENT_RUN.store(run, Relaxed);
     if LIVE.load(Relaxed) == 0 {
         EXACT_OFF.store(0, Relaxed);
         GUARD_OFF.store(PAGE, Relaxed);
